@@ -195,6 +195,25 @@ fn run_case(case: &Value) -> Value {
                     .unwrap_or_default();
                 if let Ok(file) = syn::parse_file(&text) {
                     let mut rest = String::new();
+                    // ... and, of the structs themselves, the part only `matrix_vector_types` documents: field names and types
+                    let mut fields = String::new();
+                    for item in &file.items {
+                        if let syn::Item::Struct(st) = item {
+                            if names.contains(&st.ident.to_string()) {
+                                fields.push_str(&st.ident.to_string());
+                                fields.push_str(" {");
+                                for f in st.fields.iter() {
+                                    fields.push_str(&format!(
+                                        " {}: {},",
+                                        f.ident.as_ref().map(|i| i.to_string()).unwrap_or_default(),
+                                        quote::ToTokens::to_token_stream(&f.ty)
+                                    ));
+                                }
+                                fields.push_str(" }\n");
+                            }
+                        }
+                    }
+                    res["struct_fields"] = json!(fields);
                     for item in &file.items {
                         let skip = match item {
                             syn::Item::Struct(st) => names.contains(&st.ident.to_string()),
